@@ -1,6 +1,8 @@
 package main
 
 import (
+	"go/ast"
+	"go/constant"
 	"os"
 	"fmt"
 	"math"
@@ -20,6 +22,10 @@ type eqSpec struct {
 	Ignore    map[string]bool // callee names whose call events are ignored on both sides (logging)
 	Exact     bool
 	Inline    map[string]bool // repo callees to inline although they are in repoOpaque
+	// Mutual: the opaque callees that call the compared function back (igam <-> igamc) are inlined once on both
+	// sides, the inner call back staying opaque: a caller that reaches directly for the part of its partner which the
+	// partner's own dispatch would have selected then meets the same body on the reference side
+	Mutual bool
 }
 
 const refPkg = "verif/checker/ref"
@@ -59,6 +65,130 @@ func opaqueExcept(m map[string]bool, self string) func(*ssa.Function) (bool, boo
 		pure, ok := m[n]
 		return ok, pure
 	}
+}
+
+// callsBack: the callees of fn listed in opaque whose body calls fn.
+func callsBack(fn *ssa.Function, opaque map[string]bool) map[string]bool {
+	out := map[string]bool{}
+	self := canonFunc(fn)
+	for _, b := range fn.Blocks {
+		for _, in := range b.Instrs {
+			ci, ok := in.(ssa.CallInstruction)
+			if !ok {
+				continue
+			}
+			g := ci.Common().StaticCallee()
+			if g == nil || g == fn {
+				continue
+			}
+			if _, isOpaque := opaque[canonFunc(g)]; !isOpaque {
+				continue
+			}
+			for _, gb := range g.Blocks {
+				for _, gi := range gb.Instrs {
+					if gc, ok := gi.(ssa.CallInstruction); ok {
+						if h := gc.Common().StaticCallee(); h != nil && canonFunc(h) == self {
+							out[canonFunc(g)] = true
+						}
+					}
+				}
+			}
+		}
+	}
+	return out
+}
+
+// isSentinelError: t reads a package-level variable that is never reassigned and is initialised by errors.New or
+// fmt.Errorf (a non-nil error created once instead of at the return).
+func isSentinelError(p *Prog, t *Term) bool {
+	root := t
+	for root != nil && (root.Op == "at" || root.Op == "ld") && len(root.Args) == 1 {
+		root = root.Args[0]
+	}
+	if root == nil || root.K != KSym || root.Sym.Kind != SGlobal {
+		return false
+	}
+	g, ok := root.Sym.Obj.(*ssa.Global)
+	if !ok || g.Pkg == nil || g.Pkg.Pkg == nil || !readOnlyGlobal(p, g) {
+		return false
+	}
+	lit := p.GlobalLit(g.Pkg.Pkg.Path(), g.Name())
+	if lit == nil {
+		return false
+	}
+	call, ok := lit.Expr.(*ast.CallExpr)
+	if !ok {
+		return false
+	}
+	sel, ok := call.Fun.(*ast.SelectorExpr)
+	if !ok {
+		return false
+	}
+	pk, ok := sel.X.(*ast.Ident)
+	if !ok {
+		return false
+	}
+	return (pk.Name == "errors" && sel.Sel.Name == "New") || (pk.Name == "fmt" && sel.Sel.Name == "Errorf")
+}
+
+var posTabCache = map[*ssa.Global]map[string]bool{}
+
+// positiveTableLoad: t = ld(table, index[, ".field"]) reads a read-only package-level literal table of numbers (or of
+// records with numeric fields) in which every entry (every row's field) is >= 1.
+func positiveTableLoad(p, rp *Prog, t *Term) bool {
+	if len(t.Args) < 2 || len(t.Args) > 3 || t.Args[0].K != KSym || t.Args[0].Sym.Kind != SGlobal || t.Ty != TInt {
+		return false
+	}
+	g, ok := t.Args[0].Sym.Obj.(*ssa.Global)
+	if !ok {
+		return false
+	}
+	field := ""
+	if len(t.Args) == 3 {
+		f, ok := t.Args[2].StrVal()
+		if !ok {
+			return false
+		}
+		field = f
+	}
+	if c, ok := posTabCache[g]; ok {
+		if v, ok := c[field]; ok {
+			return v
+		}
+	} else {
+		posTabCache[g] = map[string]bool{}
+	}
+	res := false
+	for _, pr := range []*Prog{p, rp} {
+		if pr == nil || g.Pkg == nil || g.Pkg.Pkg == nil {
+			continue
+		}
+		lit := pr.GlobalLit(g.Pkg.Pkg.Path(), g.Name())
+		if lit == nil || len(lit.Elems) == 0 || !readOnlyGlobal(pr, g) {
+			continue
+		}
+		res = true
+		for _, el := range lit.Elems {
+			c := el.Const
+			if field != "" {
+				c = nil
+				if fl, ok := el.Fields[strings.TrimPrefix(field, ".")]; ok && fl != nil {
+					c = fl.Const
+				}
+			}
+			if c == nil || c.Kind() != constant.Int {
+				res = false
+				break
+			}
+			if v, exact := constant.Int64Val(c); !exact || v < 1 {
+				res = false
+				break
+			}
+		}
+		break
+	}
+	posTabCache[g][field] = res
+	return res
 }
 
 type eqResult struct {
@@ -102,8 +232,21 @@ func runEquiv(c *Check, p *Prog, spec eqSpec, points int) *eqResult {
 	for k := range spec.Inline {
 		delete(ro, k)
 	}
+	rfo := refOpaque
+	if spec.Mutual {
+		rfo = map[string]bool{}
+		for k, v := range refOpaque {
+			rfo[k] = v
+		}
+		for k := range callsBack(fa, ro) {
+			delete(ro, k)
+		}
+		for k := range callsBack(fb, rfo) {
+			delete(rfo, k)
+		}
+	}
 	xa := NewExt(p, S, Config{Opaque: opaqueExcept(ro, canonFunc(fa))})
-	xb := NewExt(rp, S, Config{Opaque: opaqueExcept(refOpaque, canonFunc(fb))})
+	xb := NewExt(rp, S, Config{Opaque: opaqueExcept(rfo, canonFunc(fb))})
 	sa := xa.Summarize(fa, nil, nil)
 	sb := xb.Summarize(fb, nil, nil)
 	res.A, res.B = sa, sb
@@ -115,8 +258,10 @@ func runEquiv(c *Check, p *Prog, spec eqSpec, points int) *eqResult {
 		res.Und = append(res.Und, "reference: "+strings.Join(sb.Undecided, "; "))
 		return res
 	}
+	posLoad = func(t *Term) bool { return positiveTableLoad(p, rp, t) }
 	normalizeSummary(S, sa)
 	normalizeSummary(S, sb)
+	posLoad = nil
 	m := NewMatcher(S, p, rp, sa, sb, uint64(c.Seed)*7919+13, points)
 	for k, v := range refAlias {
 		m.GlobalAlias[k] = v
@@ -170,6 +315,15 @@ func checkEquiv(c *Check, p *Prog, rule, key string, spec eqSpec, what string) b
 					fmt.Fprintf(os.Stderr, "alt %s: %v %v\n", alt, r2.Fails, r2.Und)
 				}
 			}
+		}
+	}
+	if !r.OK && len(r.Und) == 0 && !spec.Mutual {
+		sp2 := spec
+		sp2.Mutual = true
+		if r2 := runEquiv(c, p, sp2, pointsFor(c)); r2.OK && len(r2.Und) == 0 {
+			r, spec = r2, sp2
+		} else if os.Getenv("VERIF_DEBUG_ALT") != "" {
+			fmt.Fprintf(os.Stderr, "mutual: %v %v\n", r2.Fails, r2.Und)
 		}
 	}
 	if c.Tier == "thorough" && r.OK && len(r.Und) == 0 {
@@ -288,7 +442,7 @@ func ruleC11(c *Check, p *Prog) {
 		if r.Dead || len(r.Rets) != 2 {
 			continue
 		}
-		if bv, ok := r.Rets[0].BoolVal(); ok && !bv && r.Rets[1] != errT && (r.Rets[1].Op == "call:errors.New" || r.Rets[1].Op == "call:fmt.Errorf") {
+		if bv, ok := r.Rets[0].BoolVal(); ok && !bv && r.Rets[1] != errT && (r.Rets[1].Op == "call:errors.New" || r.Rets[1].Op == "call:fmt.Errorf" || isSentinelError(p, r.Rets[1])) {
 			shortRet = r
 		}
 	}
